@@ -47,8 +47,9 @@ CONTRACT = [
 class FluidStub:
     """Stand-in for CoolProp.AbstractState in symbolic runs."""
 
-    def __init__(self, ctx, domain=True):
+    def __init__(self, ctx, domain=True, prefix=""):
         self.ctx = ctx
+        self.prefix = prefix  # a second fluid on the same path gets its own family of state functions
         self.domain = domain  # assume h_f(p_a) < h_g(p_b) for all pressures of the cycle (dropped in the `heavy` cases)
         self._p = self._T = self._h = self._s = None
         self.states = []      # (p, T, h, s) of every state computed, for pairwise axiom instantiation
@@ -62,7 +63,7 @@ class FluidStub:
         core.EX.assume(c)
 
     def _f(self, name, *args):
-        v = uf.app(name, *args)
+        v = uf.app(self.prefix + name, *args)
         return v
 
     def update(self, pair, a, b):
@@ -159,9 +160,9 @@ class FluidStub:
         return self._s
 
 
-def _psat_monotone(ctx, Ts):
+def _psat_monotone(ctx, Ts, prefix=""):
     """p_sat strictly increasing: instantiate pairwise on the saturation temperatures used."""
-    ps = [uf.app("psat", lift(T)) for T in Ts]
+    ps = [uf.app(prefix + "psat", lift(T)) for T in Ts]
     for i in range(len(Ts)):
         for j in range(i + 1, len(Ts)):
             core.EX.assume(z3.And(z3.Implies(lift(Ts[i]).t < lift(Ts[j]).t, ps[i].t < ps[j].t),
@@ -175,7 +176,7 @@ def body(ctx, case):
     # inside the two-phase range of the fluid the concrete replays use (water: 0.01..374 C, ammonia: -77.7..132 C), away from its ends
     # n-pentane is a 'dry' fluid (overhanging dew line): with little superheat its compression ends inside the dome, so the
     # wet-discharge paths of the model have concrete replays too
-    te_lo, te_hi, tc_hi, sh_hi = {"water": (5, 90, 200, 20), "ammonia": (-40, 40, 100, 20), "n-Pentane": (30, 80, 160, 0.5), "D4": (40, 60, 230, 5)}[case.get("fluid", "water")]
+    te_lo, te_hi, tc_hi, sh_hi = {"water": (5, 90, 200, 20) if not case.get("prior") else (5, 60, 100, 20), "ammonia": (-40, 40, 100, 20), "n-Pentane": (30, 80, 160, 0.5), "D4": (40, 60, 230, 5)}[case.get("fluid", "water")]
     Te = ctx.real("Te", te_lo, te_hi)
     # D4 (a heavy siloxane): saturated liquid at 200 C has MORE enthalpy than saturated vapour at 60 C, so with these ranges the
     # 'condenser outlet above evaporator outlet' branch of _compute_condenser_outlet_state is taken on the real library
@@ -193,6 +194,25 @@ def body(ctx, case):
     else:
         ctx.assume(lift_ok)
     ctx.region("lift_below_5K", h.neg(lift_ok))
+    if case.get("prior"):
+        # history: ANOTHER fluid's cycle was solved earlier in the same process, on its own instance, at the same temperatures
+        # (refrigerant comparison on a fixed temperature grid).  Whatever it did must not influence the cycle checked below.
+        other = shp.SimpleHeatPumpCycle()
+        saved0 = shp.SimpleHeatPumpCycle._validate_solve_inputs
+        try:
+            if ctx.mode == "concrete":
+                other.solve(Te, Tc, dT_sh=dsh, dT_sc=dsc, eta_comp=eta, refrigerant=case["prior"], ihx_gas_dt=0.0, Q_h_total=Q)
+            else:
+                other._state = FluidStub(ctx, domain=True, prefix="o_")
+                other._p_crit, other._t_crit, other._d_crit = 1e12, 1e6, 1.0
+                _psat_monotone(ctx, [Te + 273.15, Tc + 273.15], prefix="o_")
+                shp.SimpleHeatPumpCycle._validate_solve_inputs = lambda self, refrigerant=None: True
+                other.solve(Te, Tc, dT_sh=dsh, dT_sc=dsc, eta_comp=eta, refrigerant="other", ihx_gas_dt=0.0, Q_h_total=Q)
+            ctx.tag("another fluid solved before")
+        except Exception:
+            ctx.tag("another fluid: cycle refused")      # the earlier cycle is history, not the subject
+        finally:
+            shp.SimpleHeatPumpCycle._validate_solve_inputs = saved0
     cyc = shp.SimpleHeatPumpCycle()
     if ctx.mode == "concrete":
         fluid = case.get("fluid", "water")
@@ -266,8 +286,8 @@ def body(ctx, case):
 def cases(tier, seed):
     if tier == "quick":
         return [{"fluid": "water", "eta": 0.75, "Q": 1000.0}, {"fluid": "n-Pentane", "eta": 1.0, "Q": 1000.0}, {"fluid": "D4", "eta": 0.75, "Q": 1000.0, "heavy": True},
-                {"fluid": "water", "eta": 0.75, "Q": 1000.0, "small_lift": True}]
-    return ([{"fluid": f, "eta": e, "Q": q} for f in ("water", "ammonia", "n-Pentane") for e, q in ((0.5, 1000.0), (0.75, 40.0), (1.0, 250.0))]
+                {"fluid": "water", "eta": 0.75, "Q": 1000.0, "small_lift": True}, {"fluid": "water", "eta": 0.75, "Q": 1000.0, "prior": "ammonia"}]
+    return ([{"fluid": "water", "eta": 0.75, "Q": 1000.0, "prior": "ammonia"}, {"fluid": "water", "eta": 1.0, "Q": 250.0, "prior": "R134a"}] + [{"fluid": f, "eta": e, "Q": q} for f in ("water", "ammonia", "n-Pentane") for e, q in ((0.5, 1000.0), (0.75, 40.0), (1.0, 250.0))]
             + [{"fluid": "D4", "eta": e, "Q": 1000.0, "heavy": True} for e in (0.5, 0.75, 1.0)]
             + [{"fluid": "water", "eta": 0.75, "Q": 1000.0, "small_lift": True}])
 
@@ -275,9 +295,9 @@ def cases(tier, seed):
 FAMILIES = [
     Family(name="cycle", cases=cases, body=body, functions=FUNCS, files=FILES,
            bounds="evaporating temperature in [5,90] C and condensing up to 200 C (water replays; ammonia: [-40,40] and up to 100 C; n-pentane: [30,80] and up to 160 C, superheat <= 0.5 K; D4: [40,60] and [200,230] C, superheat <= 5 K, without the domain assumption) with lift >= 1 K, superheat and subcooling in [0,20] K, compressor efficiency concrete in {0.5, 0.75, 1} and duty concrete (the cycle is linear in the duty) "
-                  "-- temperatures, superheat and subcooling z3 reals; ihx_gas_dt = 0; request order of the stream sets (condenser first / evaporator first / both at once) a solver choice",
+                  "-- temperatures, superheat and subcooling z3 reals; ihx_gas_dt = 0; `prior` cases: a cycle of ANOTHER fluid (its own uninterpreted state functions; replays: ammonia / R134a, water cycle in [5,60] -> <= 100 C) is solved first on its own instance at the same temperatures;  request order of the stream sets (condenser first / evaporator first / both at once) a solver choice",
            assumptions=["CoolProp AbstractState replaced by uninterpreted state functions under the contract: " + "; ".join(CONTRACT),
                         "sub-critical cycles only (critical point moved out of range)", "replay on the real library with water, n-pentane and D4 (thorough: also ammonia) at the model's temperatures"],
            shim_modules=["OpenPinch.classes.simple_heat_pump", "OpenPinch.classes.stream", "OpenPinch.classes.stream_collection"],
-           timeout_ms=60000, split_paths=20, validate_every=3, concrete_only_validation=True, snap="dyadic", reach=["order=0", "order=1", "order=2", "small lift explored"]),
+           timeout_ms=60000, split_paths=20, validate_every=3, concrete_only_validation=True, snap="dyadic", reach=["order=0", "order=1", "order=2", "small lift explored", "another fluid solved before"]),
 ]
